@@ -61,7 +61,8 @@ where
     let mut max = weights.len();
     let mut left_weight = W::zero();
     loop {
-        let chunk_size = usize::max(1, (max - min) / rayon::current_num_threads());
+        let chunk_count = usize::max(2, rayon::current_num_threads());
+        let chunk_size = usize::max(1, (max - min) / chunk_count);
         let chunk_weights: Vec<W> = weights[min..max]
             .par_iter()
             .fold_chunks(chunk_size, W::zero, |sum, w| sum + *w)
